@@ -120,7 +120,7 @@ Eval(e, env, S) ==
     [] x.kind \in {"list", "tuple"} ->
         LET a == EvalList(x.args, env, S, <<>>) IN
         IF a.s.err # "" THEN [v |-> NoV, s |-> a.s]
-        ELSE IF \E i \in 1..Len(a.vs) : ~IsPrim(a.vs[i].t) THEN Fail(a.s, "unsup")     \* nested sequences
+        ELSE IF \E i \in 1..Len(a.vs) : ~ElemOK(a.vs[i].t) THEN Fail(a.s, "unsup")     \* functions as elements
         ELSE Emit1(e, Data(<<x.kind>> \o [i \in 1..Len(a.vs) |-> a.vs[i].t[1]]), 0, a.s)
     [] x.kind = "sub" ->
         LET a == Eval(x.args[1], env, S) IN
